@@ -569,7 +569,8 @@ func writeEvidence(verif, id, tier string, pc *PropConfig, e *Engine, results []
 		"wall_s":      wall,
 		"violations":  nViol,
 	}
-	_ = os.MkdirAll(filepath.Join(verif, "evidence"), 0o755)
+	evDir := envOr("VERIF_EVIDENCE_DIR", filepath.Join(verif, "evidence"))
+	_ = os.MkdirAll(evDir, 0o755)
 	data, _ := json.MarshalIndent(ev, "", " ")
-	_ = os.WriteFile(filepath.Join(verif, "evidence", id+".json"), append(data, '\n'), 0o644)
+	_ = os.WriteFile(filepath.Join(evDir, id+".json"), append(data, '\n'), 0o644)
 }
